@@ -31,7 +31,7 @@ def run(ctx):
     ctx.floor("A1", 1)
     ctx.floor("A2", 1)
     ctx.floor("A3", 7)
-    ctx.floor("A4", 4)
+    ctx.floor("A4", 3)
     ctx.floor("A5", 6)
     ctx.floor("A7", 12)
     ctx.floor("A6", 3)
